@@ -30,6 +30,23 @@ model (Model/C02Top.lean) and its theorems use:
 
 The sequential in-place updates of `invert` are kept as sequential `let` rebinding in exactly the source order.
 `#ifdef DUNE_FMatrix_WITH_CHECKING ... #endif` regions are not compiled by the harness and are skipped.
+
+Round five (behaviour-preserving respellings are normalised before anything is matched; what cannot be recognised
+soundly still raises):
+  closed-form blocks: `const` / `auto` on a local, `K t(e)`, compound assignments `target op= e`, `const K& a = entry`
+    as a name for an entry that is not written while the name is in use, a bare `return;` ending a block of a void
+    function (guard-clause dispatch; a size branch without `else` must return), `k == rows()`, `this->rows()`.
+    Local names are kept as they are: the Lean definitions are alpha-equivalent and the theorems never mention them.
+  statement trees (LU path, functors, DiagonalMatrix), see the block "round five: normalisation of the statement tree":
+    while loops and increments in the body -> for loops; locals that only name a size / `begin()` / `end()` are inlined
+    (a second declaration or a modification raises); references that only name a row or an entry (`auto& Ak = A[k]`)
+    are inlined when the index variables are not modified; private void helper functions without `return` are inlined
+    at their call sites (reference parameters: the argument is substituted; by-value parameters: scalars that the
+    helper does not modify); range-for over a known sequence / `range(a,b)`, iterator loops, `std::iota`,
+    `std::accumulate(.., std::multiplies)` -> the index loop; `n > i`, `i != n` (upward from 0) -> `i < n`; the three
+    spellings of a count-down loop over n-1..0 -> one canonical header (a signed counter is required for `i >= 0`);
+    the reaction to a singular lane (throwEarly block) is compared as a decision table over (throwEarly, all lanes
+    nonsingular, some lane nonsingular); the two `Simd::cond` updates of the pivot search may stand in either order.
 """
 import os
 import re
@@ -120,6 +137,12 @@ def function_body(src, header_rx, what):
     return src[p + 1:q]
 
 
+def canon_dispatch(body):
+    """round five: `this->rows()` -> `rows()`, `k == rows()` -> `rows() == k` (the size tests of the dispatch)"""
+    body = re.sub(r"\bthis\s*->\s*(rows|cols)\s*\(", r"\1(", body)
+    return re.sub(r"(?<![\w.\])])(\d+)\s*==\s*rows\s*\(\s*\)", r"rows()==\1", body)
+
+
 def size_block(body, n, what):
     """the statement block guarded by `if (rows()==n)` inside a function body"""
     ms = list(re.finditer(r"\bif\s*\(\s*rows\s*\(\s*\)\s*==\s*%d\s*\)" % n, body))
@@ -188,6 +211,10 @@ class Block:
         self.r_assigned = set()             # inverse[i][j] written
         self.lines = []
         self.ret = None
+        self.aliases = {}                   # round five: `const K& name = entry`
+        self.void = False                   # block of a void function: a bare `return;` may end it
+        self.void_return = False
+        self.ret_seen = False
 
     # ---- expressions --------------------------------------------------------------------
     def idx(self, toks, p):
@@ -250,6 +277,10 @@ class Block:
                 if (i, j) not in self.r_assigned:
                     raise TranslateError("%s: inverse[%d][%d] read before it is assigned" % (self.what, i, j))
                 return "r%d%d" % (i, j), p
+            if v in self.aliases:
+                if p + 1 < len(toks) and toks[p + 1][0] in ("(", "["):
+                    raise TranslateError("%s: %s used as function/array" % (self.what, v))
+                return self.aliases[v], p + 1
             if v in self.locals:
                 if p + 1 < len(toks) and toks[p + 1][0] in ("(", "["):
                     raise TranslateError("%s: %s used as function/array" % (self.what, v))
@@ -290,7 +321,7 @@ class Block:
         s = s.strip()
         if not s:
             return
-        if self.ret is not None:
+        if self.ret is not None or self.ret_seen:
             raise TranslateError("%s: statement after return" % self.what)
         if s.startswith("#"):
             raise TranslateError("%s: preprocessor directive inside a block: %r" % (self.what, s[:60]))
@@ -301,6 +332,21 @@ class Block:
                     rhs == "field_type" or re.fullmatch(r"typenameFieldTraits<\w+>::real_type", rhs)):
                 return
             raise TranslateError("%s: using-declaration outside the grammar: %r" % (self.what, s))
+        m = re.fullmatch(r"const\s+(?:K|field_type|auto)\s*&\s*([A-Za-z_]\w*)\s*=\s*(.+)", s, re.S)
+        if m:
+            # `const K& a = (*this)[0][1];`: a name for the entry; sound while the entry is not written (checked below)
+            if m.group(1) in self.locals or m.group(1) in self.aliases:
+                raise TranslateError("%s: redeclaration of %s" % (self.what, m.group(1)))
+            e = self.full_expr(tokenize(m.group(2)))
+            if not re.fullmatch(r"m\d\d|b\d", e):
+                raise TranslateError("%s: reference to something that is not an entry: %r" % (self.what, s[:80]))
+            self.aliases[m.group(1)] = e
+            return
+        if s == "return" and self.void:
+            self.void_return = True
+            self.ret_seen = True
+            return
+        s = self.canon_statement(s)
         toks = tokenize(s)
         if toks and toks[0] == ("id", "return"):
             self.ret = self.full_expr(toks[1:])
@@ -331,6 +377,8 @@ class Block:
             if p != len(lhs):
                 raise TranslateError("%s: bad left-hand side %r" % (self.what, s[:60]))
             e = self.full_expr(rhs)
+            if "m%d%d" % (i, j) in self.aliases.values():
+                raise TranslateError("%s: entry [%d][%d] is written while a reference to it is in use" % (self.what, i, j))
             self.m_assigned.add((i, j))
             self.lines.append("let m%d%d : K := %s" % (i, j, e))
             return
@@ -351,6 +399,45 @@ class Block:
             self.lines.append("let x%d : K := %s" % (i, e))
             return
         raise TranslateError("%s: assignment target outside the grammar: %r" % (self.what, s[:80]))
+
+    DECL_TYPES = ("K", "field_type", "auto")
+
+    def canon_statement(self, s):
+        """round five: spellings of one statement that mean the same are brought to the round-two form
+        `TYPE name = expr` / `target = expr`:
+          * `const` / `constexpr`-free qualifiers on a local (`const K t = e`, `const auto t = e`, `auto t = e`): a local of
+            the scalar type; `const` only forbids later assignments (the compiler checks that);
+          * constructor-style initialisers `K t(e)` / `K t{e}`;
+          * compound assignments `target op= e`  ==  `target = target op (e)` for op in + - * /."""
+        m = re.match(r"(?:const\s+)?(K|field_type|auto)\s+(?:const\s+)?([A-Za-z_]\w*)\s*(.*)$", s, re.S)
+        if m and m.group(2) not in ("const",):
+            ty, name, rest = m.group(1), m.group(2), m.group(3).strip()
+            if rest.startswith("="):
+                init = rest[1:]
+            elif rest[:1] in "({" and rest[-1:] == {"(": ")", "{": "}"}.get(rest[:1]) and self._balanced(rest):
+                init = rest[1:-1]
+            else:
+                raise TranslateError("%s: declaration outside the grammar: %r" % (self.what, s[:80]))
+            if not init.strip():
+                raise TranslateError("%s: declaration without initialiser: %r" % (self.what, s[:80]))
+            return "K %s = %s" % (name, init)
+        m = re.match(r"(.+?[^-+*/=!<>\s])\s*([-+*/])=(?!=)(.*)$", s, re.S)
+        if m and "=" not in m.group(1):
+            return "%s = (%s) %s (%s)" % (m.group(1), m.group(1), m.group(2), m.group(3))
+        return s
+
+    @staticmethod
+    def _balanced(t):
+        """t starts with an opening bracket whose partner is the last character"""
+        depth = 0
+        for i, c in enumerate(t):
+            if c in "({[":
+                depth += 1
+            elif c in ")}]":
+                depth -= 1
+                if depth == 0:
+                    return i == len(t) - 1
+        return False
 
     def run(self, block):
         if "{" in block or "}" in block:
@@ -456,15 +543,15 @@ def parse_stmt(s, p):
         q = _match_paren(s, p, "{", "}")
         return ("block", parse_seq(s[p + 1:q])), q + 1
     m = re.compile(r"(for|if|while|switch|do)\b").match(s, p)
-    if m and m.group(1) in ("while", "switch", "do"):
+    if m and m.group(1) in ("switch", "do"):
         raise TranslateError("control flow `%s` outside the grammar" % m.group(1))
     if m and s.startswith("(", m.end()):
         q = _match_paren(s, m.end())
         head = s[m.end() + 1:q]
         body, r = parse_stmt(s, q + 1)
         body = body[1] if body[0] == "block" else [body]
-        if m.group(1) == "for":
-            return ("for", head, body), r
+        if m.group(1) in ("for", "while"):
+            return (m.group(1), head, body), r
         els = []
         if re.compile(r"else\b").match(s, r):
             r2 = r + 4
@@ -517,6 +604,446 @@ def significant(nodes):
     return [nd for nd in nodes if not (nd[0] == "stmt" and IGNORABLE.match(nd[1]))]
 
 
+# ------------------------------------------------------------------------------------------------
+# round five: normalisation of the statement tree before it is matched (behaviour-preserving respellings are
+# brought to the spelling the matcher knows; everything that cannot be recognised soundly stays as it is and is
+# then rejected by the matcher)
+# ------------------------------------------------------------------------------------------------
+#   * `T v = S; while (C) { B; v++; }`  /  `T v = S; for (; C; v++) B`     -> `for (T v = S; C; v++) B`
+#     (no `continue` in B, v not used after the loop)
+#   * locals that only name a size or an iterator of a container that is not resized in the function
+#     (`const size_type n = A.rows();`, `const auto endIt = diag_.end();`; without `const` only when never assigned)
+#     are inlined at their uses; a second declaration of the name or an assignment to it raises
+#   * range-for over a known sequence (`for (auto& e : diag_)`), over `range(a[, b])`, and iterator loops
+#     (`auto it = diag_.begin(); ... *it ...; for (++it; it != diag_.end(); ++it) ... *it ...`) -> the index loop over the
+#     same positions in the same order, `e` / `*it` -> `diag_[i]`; any other use of the iterator raises
+#   * loop conditions with the loop variable on the right (`n > i`), `i != n` for an upward loop from 0 -> `i < n`
+# The contexts name the size atoms and sequences of the function at hand.
+
+DENSE_CTX = dict(size_atoms=[r"A\.rows\(\)", r"rows\(\)", r"pivot_\.size\(\)", r"this->rows\(\)"],
+                 seqs={"pivot_": "pivot_.size()"})
+DIAG_CTX = dict(size_atoms=[r"n", r"diag_\.size\(\)"], seqs={"diag_": "n"})
+
+INC_RX = r"(?:\+\+%s|%s\+\+|%s\+=1|--%s|%s--|%s-=1)"
+
+
+def _texts(nodes):
+    """all statement / header / condition texts of a tree"""
+    for nd in nodes:
+        if nd[0] == "stmt":
+            yield nd[1]
+        elif nd[0] in ("for", "while"):
+            yield nd[1]
+            for t in _texts(nd[2]):
+                yield t
+        elif nd[0] == "if":
+            yield nd[1]
+            for t in _texts(nd[2]):
+                yield t
+            for t in _texts(nd[3]):
+                yield t
+
+
+def _mentions(nodes, name):
+    rx = re.compile(r"\b%s\b" % re.escape(name))
+    return any(rx.search(t) for t in _texts(nodes))
+
+
+def _uses_outer(nodes, name):
+    """is the variable `name` of the enclosing scope used in `nodes`?  (a loop that declares its own `name` hides it)"""
+    rx = re.compile(r"\b%s\b" % re.escape(name))
+    for nd in nodes:
+        if nd[0] == "stmt":
+            if rx.search(nd[1]):
+                return True
+        elif nd[0] in ("for", "while"):
+            if re.match(r"(?:const )?[\w:<>]+[ &]+%s[=:]" % re.escape(name), nd[1]):
+                continue
+            if rx.search(nd[1]) or _uses_outer(nd[2], name):
+                return True
+        elif nd[0] == "if":
+            if rx.search(nd[1]) or _uses_outer(nd[2], name) or _uses_outer(nd[3], name):
+                return True
+    return False
+
+
+def _map_tree(nodes, f):
+    out = []
+    for nd in nodes:
+        if nd[0] == "stmt":
+            out.append(("stmt", f(nd[1])))
+        elif nd[0] in ("for", "while"):
+            out.append((nd[0], f(nd[1]), _map_tree(nd[2], f)))
+        elif nd[0] == "if":
+            out.append(("if", f(nd[1]), _map_tree(nd[2], f), _map_tree(nd[3], f)))
+        else:
+            out.append(nd)
+    return out
+
+
+def _has_jump(nodes):
+    return any(re.search(r"\b(continue|break|goto)\b", t) for t in _texts(nodes))
+
+
+def _check_not_rebound(nodes, name, what):
+    """after `name` has been given a fixed meaning: no second declaration, no assignment, no address taken"""
+    n = re.escape(name)
+    for t in _texts(nodes):
+        for m in re.finditer(r"(\w+) %s\b" % n, t):
+            if m.group(1) not in ("return", "else", "throw", "case"):
+                raise TranslateError("%s: `%s` is declared a second time (%r)" % (what, name, t[:60]))
+        if re.search(r"\w[&*]+%s\b(?=[=({:]|$)" % n, t):
+            raise TranslateError("%s: `%s` is declared a second time (%r)" % (what, name, t[:60]))
+        if re.search(r"\b%s(?:\+\+|--|[-+*/%%&|^]?=(?!=)|<<=|>>=)|(?:\+\+|--)%s\b|(?<![&\w)\]])&%s\b" % (n, n, n), t):
+            raise TranslateError("%s: `%s` is modified after its declaration (%r)" % (what, name, t[:60]))
+
+
+def _subst(nodes, name, repl, what):
+    _check_not_rebound(nodes, name, what)
+    atomic = re.fullmatch(r"[\w.:>-]+(?:\(\))?|(?:\w+|\(\*\w+\))(?:\[\w+\])*", repl) is not None   # a postfix expression
+    r = repl if atomic else "(" + repl + ")"
+    return _map_tree(nodes, lambda t: re.sub(r"(?<![\w.>])%s\b(?!\()" % re.escape(name), lambda m: r, t))
+
+
+def _while_to_for(nodes, what):
+    out = []
+    for nd in nodes:
+        if nd[0] in ("for", "while"):
+            nd = (nd[0], nd[1], _while_to_for(nd[2], what))
+        elif nd[0] == "if":
+            nd = ("if", nd[1], _while_to_for(nd[2], what), _while_to_for(nd[3], what))
+        if nd[0] == "while":
+            body = nd[2]
+            conv = None
+            if body and body[-1][0] == "stmt" and not _has_jump(body):
+                m = re.fullmatch(r"(?:\+\+|--)(\w+)|(\w+)(?:\+\+|--|\+=1|-=1)", body[-1][1])
+                v = m and (m.group(1) or m.group(2))
+                if v and re.search(r"\b%s\b" % v, nd[1]):
+                    conv = ("for", ";%s;%s" % (nd[1], body[-1][1]), body[:-1])
+            if conv is None and body and body[0][0] == "stmt":
+                m = re.fullmatch(r"--(\w+)|(\w+)(?:--|-=1)", body[0][1])
+                v = m and (m.group(1) or m.group(2))
+                if v and re.search(r"\b%s\b" % v, nd[1]):
+                    conv = ("for", ";%s;" % nd[1], body)         # the `for (i = n; i > 0; ) { --i; ...` idiom
+            if conv is None:
+                raise TranslateError("%s: while loop outside the grammar: %r" % (what, nd[1]))
+            nd = conv
+        # `for (T v = S; C; ) { B; v++ }` without jumps -> increment into the header
+        if nd[0] == "for" and nd[1].count(";") == 2 and nd[1].endswith(";") and nd[2] and nd[2][-1][0] == "stmt" \
+                and not _has_jump(nd[2]):
+            m = re.fullmatch(r"\+\+(\w+)|(\w+)\+\+|(\w+)\+=1", nd[2][-1][1])
+            v = m and (m.group(1) or m.group(2) or m.group(3))
+            hv = re.match(r"(?:const )?(?:[\w:]+) (\w+)=", nd[1])
+            if v and (nd[1].startswith(";") or (hv and hv.group(1) == v)) and re.search(r"\b%s\b" % v, nd[1].split(";")[1]):
+                nd = ("for", nd[1] + nd[2][-1][1], nd[2][:-1])
+        out.append(nd)
+    # merge `T v = S;` with a directly following `for (; C; inc)` when v is not used afterwards
+    res = []
+    i = 0
+    while i < len(out):
+        nd = out[i]
+        if (nd[0] == "stmt" and i + 1 < len(out) and out[i + 1][0] == "for" and out[i + 1][1].startswith(";")):
+            m = re.fullmatch(r"((?:[\w:]+) (\w+)=[^;=]+)", nd[1])
+            if m and re.search(r"\b%s\b" % m.group(2), out[i + 1][1]) and not _uses_outer(out[i + 2:], m.group(2)):
+                res.append(("for", m.group(1) + out[i + 1][1], out[i + 1][2]))
+                i += 2
+                continue
+        res.append(nd)
+        i += 1
+    return res
+
+
+def _inline_names(nodes, ctx, what):
+    seqs = ctx["seqs"]
+    atom = "|".join(ctx["size_atoms"] + [r"%s\.size\(\)" % re.escape(q) for q in seqs] + [r"\d+"])
+    size_expr = re.compile(r"(?:%s)(?:[-+](?:%s))*" % (atom, atom))
+    iter_expr = re.compile(r"(?:%s)\.(?:begin|end|cbegin|cend)\(\)" % "|".join(re.escape(q) for q in seqs)) if seqs else None
+    out = list(nodes)
+    i = 0
+    while i < len(out):
+        nd = out[i]
+        if nd[0] == "stmt":
+            m = re.fullmatch(r"(const )?(?:size_type|std::size_t|int|unsigned|unsigned int|long|std::ptrdiff_t|auto)( const)? (\w+)"
+                             r"(?:=(.+)|\((.+)\))", nd[1])
+            if m:
+                name = m.group(3)
+                e = m.group(4) if m.group(4) is not None else m.group(5)
+                e = re.sub(r"\bthis->", "", e)
+                ok = size_expr.fullmatch(e) or (iter_expr is not None and iter_expr.fullmatch(e)
+                                               and (m.group(1) or m.group(2)))
+                if ok and not (m.group(1) or m.group(2)):
+                    try:
+                        _check_not_rebound(out[i + 1:], name, what)
+                    except TranslateError:
+                        ok = False          # a variable, not a name for the size: left to the matcher
+                if ok:
+                    rest = _subst(out[i + 1:], name, e.replace(".cbegin()", ".begin()").replace(".cend()", ".end()"), what)
+                    out = out[:i] + rest
+                    continue
+            # a reference that only names a row / an entry (`auto& Ak = A[k];`): the same object as long as the index
+            # variables are not modified while the name is in use (checked); copies are NOT inlined (the entry may change)
+            m = re.fullmatch(r"(?:const )?(?:auto|[\w:]+)&(\w+)=((?:A|\(\*this\)|\(\*rhs_\)|rhs|x|b|pivot_|pivot|diag_)"
+                             r"(?:\[\w+\]){1,2})", nd[1])
+            if m and not re.fullmatch(r"V1&rhs=x", nd[1]):
+                rest = out[i + 1:]
+                for ix in re.findall(r"\[(\w+)\]", m.group(2)):
+                    if not ix.isdigit():
+                        _check_not_rebound(rest, ix, what)
+                out = out[:i] + _subst(rest, m.group(1), m.group(2), what)
+                continue
+        if nd[0] in ("for", "while"):
+            out[i] = (nd[0], nd[1], _inline_names(nd[2], ctx, what))
+        elif nd[0] == "if":
+            out[i] = ("if", nd[1], _inline_names(nd[2], ctx, what), _inline_names(nd[3], ctx, what))
+        i += 1
+    return out
+
+
+def _iter_uses(text, it, repl, what):
+    """every use of the iterator `it` in `text` must be a plain dereference; -> text with `*it` replaced"""
+    good = re.compile(r"(?<!\+\+)(?<!--)\(?\*%s\b\)?(?!\+\+|--|\[|\.|->)" % re.escape(it))
+
+    def one(m):
+        g = m.group(0)
+        if g.startswith("(") != g.endswith(")"):
+            g2 = g.strip("()")
+            return g.replace(g2, repl)
+        return repl
+    n_all = len(re.findall(r"\b%s\b" % re.escape(it), text))
+    if len(good.findall(text)) != n_all:
+        raise TranslateError("%s: use of the iterator `%s` outside the grammar: %r" % (what, it, text[:70]))
+    return good.sub(one, text)
+
+
+def _seq_size(ctx, q):
+    return ctx["seqs"][q]
+
+
+def _norm_iters(nodes, ctx, what):
+    seqs = ctx["seqs"]
+    out = []
+    nodes = list(nodes)
+    i = 0
+    while i < len(nodes):
+        nd = nodes[i]
+        if nd[0] == "for":
+            nd = ("for", nd[1], _norm_iters(nd[2], ctx, what))
+        elif nd[0] == "if":
+            nd = ("if", nd[1], _norm_iters(nd[2], ctx, what), _norm_iters(nd[3], ctx, what))
+        # ---- range-for
+        if nd[0] == "for" and ";" not in nd[1]:
+            m = re.fullmatch(r"(const )?(?:auto|K|field_type|value_type|int|size_type|std::size_t)(&&|&| )(\w+):(.+)", nd[1])
+            if not m:
+                raise TranslateError("%s: loop header outside the grammar: %r" % (what, nd[1]))
+            cst, ref, v, rng = m.groups()
+            mr = re.fullmatch(r"(?:Dune::)?range\((.+)\)", rng)
+            if mr and ref == " ":
+                a = split_args(mr.group(1))
+                if len(a) not in (1, 2):
+                    raise TranslateError("%s: range() with %d arguments" % (what, len(a)))
+                lo, hi = ("0", a[0]) if len(a) == 1 else (a[0], a[1])
+                _check_not_rebound(nd[2], v, what)
+                nd = ("for", "int %s=%s;%s<%s;%s++" % (v, lo, v, hi, v), nd[2])
+            elif rng in seqs:
+                if ref == " " or cst:
+                    # a copy / const reference of the entry: reads only
+                    _check_not_rebound(nd[2], v, what)
+                idx = v + "_idx"
+                if _mentions(nd[2], idx):
+                    raise TranslateError("%s: name clash %s" % (what, idx))
+                for t in _texts(nd[2]):
+                    if re.search(r"(?<![&\w)\]])&%s\b" % re.escape(v), t):
+                        raise TranslateError("%s: address of the range-for variable taken" % what)
+                body = _map_tree(nd[2], lambda t: re.sub(r"(?<![\w.>])%s\b" % re.escape(v), "%s[%s]" % (rng, idx), t))
+                nd = ("for", "int %s=0;%s<%s;%s++" % (idx, idx, _seq_size(ctx, rng), idx), body)
+            else:
+                raise TranslateError("%s: range-for over %r outside the grammar" % (what, rng))
+        # ---- iterator declared in a for header: `auto it=S.begin();it!=S.end();++it`
+        if nd[0] == "for" and nd[1].count(";") == 2:
+            init, cond, inc = nd[1].split(";")
+            m = re.fullmatch(r"(?:auto|[\w:<>,]*[Ii]terator) (\w+)=(\w+)\.c?begin\(\)(?:\+(\d+))?", init)
+            if m and m.group(2) in seqs:
+                nd = _iter_loop(nd, m.group(1), m.group(2), int(m.group(3) or 0), "", cond, inc, ctx, what)
+        # ---- iterator declared as a statement: symbolic position along the following siblings
+        if nd[0] == "stmt":
+            m = (re.fullmatch(r"(?:auto|[\w:<>,]*[Ii]terator) (\w+)=(\w+)\.c?begin\(\)(?:\+(\d+))?", nd[1])
+                 or re.fullmatch(r"(?:auto|[\w:<>,]*[Ii]terator) (\w+)=std::next\((\w+)\.c?begin\(\)(?:,(\d+))?\)", nd[1]))
+            if m and m.group(2) in seqs:
+                it, q = m.group(1), m.group(2)
+                if "std::next" in nd[1]:
+                    pos = int(m.group(3) or 1)
+                else:
+                    pos = int(m.group(3) or 0)
+                rest = []
+                for r in nodes[i + 1:]:
+                    if not _mentions([r], it):
+                        rest.append(r)
+                        continue
+                    if pos is None:
+                        raise TranslateError("%s: iterator `%s` used after its loop" % (what, it))
+                    if r[0] == "stmt":
+                        mi = re.fullmatch(r"\+\+%s|%s\+\+|%s\+=(\d+)|std::advance\(%s,(\d+)\)" % (it, it, it, it), r[1])
+                        if mi:
+                            pos += int(mi.group(1) or mi.group(2) or 1)
+                            continue
+                        rest.append(("stmt", _iter_uses(r[1], it, "%s[%d]" % (q, pos), what)))
+                    elif r[0] == "for" and r[1].count(";") == 2:
+                        init, cond, inc = r[1].split(";")
+                        mi = re.fullmatch(r"\+\+%s|%s\+\+|" % (it, it), init)
+                        if not mi:
+                            raise TranslateError("%s: iterator loop header outside the grammar: %r" % (what, r[1]))
+                        if init:
+                            pos += 1
+                        rest.append(_iter_loop(r, it, q, pos, None, cond, inc, ctx, what))
+                        pos = None
+                    else:
+                        raise TranslateError("%s: use of the iterator `%s` outside the grammar" % (what, it))
+                out.extend(_norm_iters(rest, ctx, what))
+                return out
+        out.append(nd)
+        i += 1
+    return out
+
+
+def _iter_loop(nd, it, q, pos, _unused, cond, inc, ctx, what):
+    if pos > 1:
+        raise TranslateError("%s: iterator loop starting at position %d" % (what, pos))
+    e = r"%s\.c?end\(\)" % re.escape(q)
+    if not (re.fullmatch(r"%s(?:!=|<)%s" % (it, e), cond) or re.fullmatch(r"%s(?:!=|>)%s" % (e, it), cond)):
+        raise TranslateError("%s: iterator loop condition outside the grammar: %r" % (what, cond))
+    if not re.fullmatch(r"\+\+%s|%s\+\+" % (it, it), inc):
+        raise TranslateError("%s: iterator loop increment outside the grammar: %r" % (what, inc))
+    idx = it + "_idx"
+    if _mentions(nd[2], idx):
+        raise TranslateError("%s: name clash %s" % (what, idx))
+    body = _map_tree(nd[2], lambda t: _iter_uses(t, it, "%s[%s]" % (q, idx), what))
+    return ("for", "int %s=%d;%s<%s;%s++" % (idx, pos, idx, _seq_size(ctx, q), idx), body)
+
+
+# ---- round five: private helper functions are inlined at their call sites; std::iota / std::accumulate over a known
+# sequence are rewritten as the hand loop
+
+KNOWN_CALLS = ("swap", "func", "DUNE_THROW", "luDecomposition", "DUNE_ASSERT_BOUNDS", "assert", "elim", "return")
+VALUE_PARAM = r"(?:const )?(?:size_type|std::size_t|int|bool|simd_index_type|field_type|real_type|K|typename \w+::size_type)(?: const)?"
+
+
+def _helper_defs(src, name):
+    """definitions `void name(params) [const] { body }` in the source -> [(params text, body text)]"""
+    out = []
+    for m in re.finditer(r"\bvoid\s+(?:DenseMatrix<MAT>::)?%s\s*\(([^()]*)\)\s*(?:const\s*)?\{" % re.escape(name), src):
+        p = m.end() - 1
+        out.append((m.group(1), src[p + 1:match_brace(src, p)]))
+    return out
+
+
+def _inline_helpers(nodes, src, what, depth=0):
+    out = []
+    for nd in nodes:
+        if nd[0] in ("for", "while"):
+            nd = (nd[0], nd[1], _inline_helpers(nd[2], src, what, depth))
+        elif nd[0] == "if":
+            nd = ("if", nd[1], _inline_helpers(nd[2], src, what, depth), _inline_helpers(nd[3], src, what, depth))
+        elif nd[0] == "stmt":
+            m = re.fullmatch(r"(?:this->|MAT::|AutonomousValue<MAT>::|DenseMatrix<MAT>::|DenseMatrix::)?([A-Za-z_]\w*)\((.*)\)", nd[1])
+            if m and m.group(1) not in KNOWN_CALLS:
+                defs = _helper_defs(src, m.group(1))
+                if len(defs) == 1:
+                    if depth >= 3:
+                        raise TranslateError("%s: helper functions nested deeper than 3" % what)
+                    out.extend(_inline_one(m.group(1), m.group(2), defs[0], src, what, depth))
+                    continue
+        out.append(nd)
+    return out
+
+
+def _inline_one(name, argtext, definition, src, what, depth):
+    W = "%s: helper %s" % (what, name)
+    ptext, body = definition
+    params = []
+    for q in split_args(normalize(ptext)) if ptext.strip() else []:
+        mm = re.fullmatch(r"(.*?)(&?)(\w+)", q)
+        if not mm:
+            raise TranslateError("%s: parameter %r outside the grammar" % (W, q))
+        ty, ref, pn = mm.group(1).strip(), mm.group(2), mm.group(3)
+        if not ref and not re.fullmatch(VALUE_PARAM, ty):
+            raise TranslateError("%s: by-value parameter of type %r (a copy) outside the grammar" % (W, ty))
+        params.append((pn, bool(ref)))
+    args = split_args(argtext) if argtext else []
+    if len(args) != len(params):
+        raise TranslateError("%s: called with %d arguments, defined with %d" % (W, len(args), len(params)))
+    tree = _while_to_for(parse_seq(normalize(body)), W)
+    if any(re.search(r"\breturn\b", t) for t in _texts(tree)):
+        raise TranslateError("%s: a helper with a return statement is outside the grammar" % W)
+    refargs = [a for (pn, r), a in zip(params, args) if r]
+    for (pn, r), a in zip(params, args):
+        if r:
+            if not re.fullmatch(r"\w+|\*this|\(\*\w+\)|\w+\[\w+\]", a):
+                raise TranslateError("%s: argument %r for the reference parameter %s outside the grammar" % (W, a, pn))
+        else:
+            if not re.fullmatch(r"\w+|A\.rows\(\)|rows\(\)", a) or a in refargs:
+                raise TranslateError("%s: argument %r for the value parameter %s outside the grammar" % (W, a, pn))
+            _check_not_rebound(tree, pn, W)         # a modified by-value parameter would be a private copy
+        for ident in re.findall(r"[A-Za-z_]\w*", a):
+            if ident not in ("this",) and ident not in [q for q, _ in params]:
+                _check_not_rebound(tree, ident, W)  # the helper must not declare a name that occurs in the arguments
+    # simultaneous substitution through placeholders
+    for k, (pn, r) in enumerate(params):
+        tree = _map_tree(tree, lambda t, pn=pn, k=k: re.sub(r"(?<![\w.>])%s\b(?!\()" % re.escape(pn), "__P%d__" % k, t))
+    for k, a in enumerate(args):
+        a2 = "(*this)" if a == "*this" else a
+        tree = _map_tree(tree, lambda t, a2=a2, k=k: t.replace("__P%d__" % k, a2))
+    for (pn, r), a in zip(params, args):
+        if r:
+            for ix in re.findall(r"\[(\w+)\]", a):
+                if not ix.isdigit():
+                    _check_not_rebound(tree, ix, W)
+    return _inline_helpers(tree, src, what, depth + 1)
+
+
+def _std_algos(nodes, ctx, what):
+    seqs = ctx["seqs"]
+    out = []
+    for nd in nodes:
+        if nd[0] in ("for", "while"):
+            nd = (nd[0], nd[1], _std_algos(nd[2], ctx, what))
+        elif nd[0] == "if":
+            nd = ("if", nd[1], _std_algos(nd[2], ctx, what), _std_algos(nd[3], ctx, what))
+        elif nd[0] == "stmt":
+            m = re.fullmatch(r"std::iota\((\w+)\.begin\(\),(\w+)\.end\(\),(?:0|\w+\(0\))\)", nd[1])
+            if m and m.group(1) == m.group(2) and m.group(1) in seqs:
+                q = m.group(1)
+                nd = ("for", "int iota_idx=0;iota_idx<%s;iota_idx++" % seqs[q], [("stmt", "%s[iota_idx]=iota_idx" % q)])
+            m = re.fullmatch(r"(return |(?:const )?(?:K|field_type|auto) (\w+)=)std::accumulate\((?:(\w+)\.begin\(\)\+1|std::next\((\w+)\.begin\(\)\)),"
+                             r"(\w+)\.end\(\),(\w+)\[0\],std::multiplies<\w*>\(\)\)", nd[1])
+            if m:
+                q = m.group(3) or m.group(4)
+                if q in seqs and m.group(5) == q and m.group(6) == q:
+                    v = m.group(2) or "acc_result"
+                    out.append(("stmt", "K %s=%s[0]" % (v, q)))
+                    out.append(("for", "int acc_idx=1;acc_idx<%s;acc_idx++" % seqs[q], [("stmt", "%s*=%s[acc_idx]" % (v, q))]))
+                    if m.group(1) == "return ":
+                        out.append(("stmt", "return " + v))
+                    continue
+        out.append(nd)
+    return out
+
+
+def ntree(text, what, ctx, src=None):
+    """function body text -> normalised statement tree (significant statements only)"""
+    t = normalize(text)
+    t = re.sub(r"\bthis->(?=\w+\()", "", t)          # `this->rows()`: a member call (a local cannot shadow a call)
+    nodes = parse_seq(t)
+    nodes = _while_to_for(nodes, what)
+    if src is not None:
+        nodes = _inline_helpers(nodes, src, what)
+    nodes = _std_algos(nodes, ctx, what)
+    nodes = _inline_names(nodes, ctx, what)
+    nodes = _norm_iters(nodes, ctx, what)
+    if ctx is DIAG_CTX:
+        nodes = _map_tree(nodes, lambda s: re.sub(r"\bdiag_\.size\(\)", "n", s))
+    return significant(nodes)
+
+
 ROWS = r"(?:A\.rows\(\)|rows\(\)|n|pivot_\.size\(\))"
 
 
@@ -526,14 +1053,22 @@ def loop_header(head, what):
     if not m:
         raise TranslateError("%s: loop header outside the grammar: %r" % (what, head))
     v, start, cond, inc = m.groups()
-    if inc in (v + "++", "++" + v, v + "+=1"):
+    if inc in (v + "++", "++" + v, v + "+=1", "%s=%s+1" % (v, v), "%s=1+%s" % (v, v)):
         d = "up"
-    elif inc in (v + "--", "--" + v, v + "-=1"):
+    elif inc in (v + "--", "--" + v, v + "-=1", "%s=%s-1" % (v, v)):
         d = "down"
     elif inc == "":
         d = "body"
     else:
         raise TranslateError("%s: loop increment outside the grammar: %r" % (what, inc))
+    # round five: the loop variable on the right-hand side of the comparison (`n > i`  ==  `i < n`)
+    mc = re.fullmatch(r"(.+?)(<=|>=|<|>|!=)(\w+)", cond)
+    if mc and mc.group(3) == v and not re.search(r"\b%s\b" % re.escape(v), mc.group(1)):
+        cond = v + {"<": ">", ">": "<", "<=": ">=", ">=": "<=", "!=": "!="}[mc.group(2)] + mc.group(1)
+    # an upward loop from 0 in steps of one reaches every bound: `i != B`  ==  `i < B`
+    mc = re.fullmatch(r"%s!=(.+)" % re.escape(v), cond)
+    if mc and d == "up" and start == "0" and not re.search(r"\b%s\b" % re.escape(v), mc.group(1)):
+        cond = v + "<" + mc.group(1)
     canon = lambda t: re.sub(ROWS, "n", t)
     return v, canon(start), canon(cond), d
 
@@ -675,6 +1210,89 @@ def lane_swap(node, ren, what):
     return tuple(ren(unlane(x)) for x in parts)
 
 
+ON_SINGULAR_ATOMS = (("throwEarly", "te"), ("Simd::allTrue(nonsingularLanes)", "al"), ("Simd::anyTrue(nonsingularLanes)", "an"))
+
+
+def _bool_cond(c, env, what):
+    t = c
+    for src, nm in ON_SINGULAR_ATOMS:
+        t = t.replace(src, " %s " % nm)
+    t = t.replace("&&", " and ").replace("||", " or ")
+    t = re.sub(r"!(?!=)", " not ", t)
+    t = re.sub(r"==\s*true\b", "", t)
+    if not re.fullmatch(r"(?:\s|\(|\)|\b(?:te|al|an|and|or|not)\b)*", t):
+        raise TranslateError("%s: condition %r outside the grammar of the singular-lane block" % (what, c))
+    try:
+        return bool(eval(t, {"__builtins__": {}}, dict(env)))
+    except Exception:
+        raise TranslateError("%s: condition %r outside the grammar of the singular-lane block" % (what, c))
+
+
+def _run_singular(nodes, env, what):
+    for nd in nodes:
+        if nd[0] == "if":
+            r = _run_singular(nd[2] if _bool_cond(nd[1], env, what) else nd[3], env, what)
+            if r != "fall":
+                return r
+        elif nd[0] == "stmt" and re.fullmatch(r"DUNE_THROW\(FMatrixError,.*\)", nd[1]):
+            return "throw"
+        elif nd[0] == "stmt" and nd[1] == "return":
+            return "return"
+        else:
+            raise TranslateError("%s: statement %r outside the grammar of the singular-lane block" % (what, nd[1][:60]))
+    return "fall"
+
+
+def on_singular_table(nodes, what):
+    """the block between the singularity test and the elimination loop as a decision table over
+    (throwEarly, all lanes nonsingular, some lane nonsingular); `all and not some` cannot happen (at least one lane)"""
+    tab = []
+    for te in (False, True):
+        for al in (False, True):
+            for an in (False, True):
+                if al and not an:
+                    continue
+                tab.append(_run_singular(nodes, {"te": te, "al": al, "an": an}, what))
+    return tuple(tab)
+
+
+ON_SINGULAR_CANON = ("return", "fall", "fall", "throw", "throw", "fall")
+
+
+SIGNED_TYPES = ("int", "long", "std::ptrdiff_t", "ptrdiff_t", "std::int64_t", "int64_t", "std::make_signed_t<size_type>")
+
+
+def down_loop(node, ren, what):
+    """round five: the three spellings of a loop over n-1, n-2, ..., 0
+         A  `for (int i = n-1; i >= 0; i--) body`                 (signed counter only: an unsigned one never ends)
+         B  `for (size_type i = n; i > 0; ) { --i; body }`        (also written as a while loop)
+         C  `for (size_type i = n; i-- > 0; ) body`
+       -> the one canonical header ("i", "n-1", "i>=0", "down") and the body without the leading decrement"""
+    if node[0] != "for":
+        raise TranslateError("%s: expected a for loop, found %r" % (what, node[:2]))
+    m = re.fullmatch(r"(?:const )?([\w:<>]+) (\w+)=([^;]*);([^;]*);([^;]*)", node[1])
+    if not m:
+        raise TranslateError("%s: loop header outside the grammar: %r" % (what, node[1]))
+    ty, v, start, cond, inc = m.groups()
+    canon = lambda t: re.sub(ROWS, "n", t)
+    start = canon(ren(start))
+    ren.bind(v, "i")
+    cond = canon(ren(cond))
+    cond = {"0<=i": "i>=0", "0<i": "i>0", "0!=i": "i!=0", "0<i--": "i-->0"}.get(cond, cond)
+    inc = ren(inc)
+    bb = significant(node[2])
+    if inc in ("i--", "--i", "i-=1", "i=i-1") and cond == "i>=0":
+        if ty not in SIGNED_TYPES:
+            raise TranslateError("%s: count-down loop `%s` with a counter of type %s (i >= 0 never fails for an unsigned "
+                                 "counter)" % (what, node[1], ty))
+        return ("i", start, "i>=0", "down"), bb
+    if inc == "" and cond in ("i>0", "i!=0") and bb and bb[0][0] == "stmt" and ren(bb[0][1]) in ("--i", "i--", "i-=1", "i=i-1"):
+        return ("i", start + "-1", "i>=0", "down"), bb[1:]
+    if inc == "" and cond == "i-->0":
+        return ("i", start + "-1", "i>=0", "down"), bb
+    raise TranslateError("%s: count-down loop outside the grammar: %r" % (what, node[1]))
+
+
 def translate_lu(dm, diag):
     out = []
     dmn = dm
@@ -682,7 +1300,7 @@ def translate_lu(dm, diag):
     # ---------------- luDecomposition ----------------
     body = function_body(dmn, r"luDecomposition\s*\(\s*DenseMatrix<MAT>\s*&\s*A\s*,\s*Func\s+func\s*,\s*Mask\s*&\s*nonsingularLanes\s*,"
                               r"\s*bool\s+throwEarly\s*,\s*bool\s+doPivoting\s*\)(?=\s*\{)", "luDecomposition")
-    top = significant(parse_seq(normalize(body)))
+    top = ntree(body, "luDecomposition", DENSE_CTX, dmn)
     W = "luDecomposition"
     # a hoisted constant zero of the pivot type: `const real_type zero(0);` / `= 0` / `= real_type(0)`
     zero_names = []
@@ -696,9 +1314,12 @@ def translate_lu(dm, diag):
     ren = Ren()
     loops = [expect_loop(top[0], ren, "i", None, None, None, W)]
     ob = significant(top[0][2])
-    if len(ob) != 5:
+    if len(ob) < 5:
         raise TranslateError("%s: outer loop body has %d statements (expected pivmax, if(doPivoting), singularity test, "
                              "if(throwEarly), elimination loop)" % (W, len(ob)))
+    # round five: everything between the singularity test and the elimination loop is the reaction to a singular lane;
+    # it is compared as a decision table (see on_singular_table), so guard clauses / nested ifs / merged conditions agree
+    ob = ob[:3] + [("singular-block", ob[3:-1])] + [ob[-1]]
     # (1) real_type pivmax = fvmeta::absreal(A[i][i]);
     m = ob[0][0] == "stmt" and re.fullmatch(r"(?:real_type|auto) (\w+)=fvmeta::absreal\((.+)\)", ob[0][1])
     if not m or ren(m.group(2)) != "A[i][i]":
@@ -736,6 +1357,9 @@ def translate_lu(dm, diag):
     cls = "{Q : Type} [LT Q] [DecidableLT Q] [LE Q] [DecidableLE Q]"
     out.append("/-- pivot search: `mask = %s` (candidate `abs` = |A[k][i]| against the running maximum) -/\n"
                "def luPivotBetter %s (v_abs v_pivmax : Q) : Bool :=\n  decide (%s)" % ("abs " + op + " pivmax", cls, leanop))
+    # round five: the two updates read `mask` and their own old value only, so their order is irrelevant
+    if compound(sb[2][1], W)[0] and r2(compound(sb[2][1], W)[0]) == "imax" and r2(compound(sb[3][1], W)[0]) == "pivmax":
+        sb = sb[:2] + [sb[3], sb[2]]
     for idx, (target, a, b) in enumerate((("pivmax", "abs", "pivmax"), ("imax", "simd_index_type(k)", "imax"))):
         lhs, rhs = compound(sb[2 + idx][1], W)
         if r2(lhs) != target:
@@ -775,15 +1399,9 @@ def translate_lu(dm, diag):
                "def luNonsingular {Q : Type} [BEq Q] [OfNat Q 0] (v_lanes : Bool) (v_pivmax : Q) : Bool :=\n"
                "  v_lanes && !(v_pivmax == 0)")
     # (4) if (throwEarly) { if(!allTrue) DUNE_THROW(FMatrixError, ..) } else { if(!anyTrue) return; }
-    nd = ob[3]
-    okshape = (nd[0] == "if" and nd[1] == "throwEarly" and len(nd[2]) == 1 and len(nd[3]) == 1
-               and nd[2][0][0] == "if" and nd[2][0][1] == "!Simd::allTrue(nonsingularLanes)" and not nd[2][0][3]
-               and len(nd[2][0][2]) == 1 and nd[2][0][2][0][0] == "stmt"
-               and re.fullmatch(r'DUNE_THROW\(FMatrixError,.*\)', nd[2][0][2][0][1])
-               and nd[3][0][0] == "if" and nd[3][0][1] == "!Simd::anyTrue(nonsingularLanes)" and not nd[3][0][3]
-               and len(nd[3][0][2]) == 1 and nd[3][0][2][0] == ("stmt", "return"))
-    if not okshape:
-        raise TranslateError("%s: the throwEarly / return block after the singularity test is outside the grammar" % W)
+    if on_singular_table(ob[3][1], W) != ON_SINGULAR_CANON:
+        raise TranslateError("%s: the throwEarly / return block after the singularity test does not decide as "
+                             "`throwEarly: throw unless all lanes nonsingular; otherwise: return when no lane is`" % W)
     out.append("/-- what happens when a lane is singular: (throwEarly, !throwEarly); the test sits between the row exchange "
                "and the elimination loop -/\ndef luOnSingular : List String := "
                + lean_str_list(["throw FMatrixError unless all lanes nonsingular", "return when no lane nonsingular"]))
@@ -826,7 +1444,7 @@ def translate_lu(dm, diag):
     # ---------------- the functors ----------------
     fb = normalize(function_body(dmn, r"DenseMatrix<MAT>::ElimPivot::ElimPivot\s*\(\s*std::vector<simd_index_type>\s*&\s*pivot\s*\)"
                                       r"\s*:\s*pivot_\s*\(\s*pivot\s*\)(?=\s*\{)", "ElimPivot::ElimPivot"))
-    nodes = significant(parse_seq(fb))
+    nodes = ntree(fb, "functor", DENSE_CTX, dmn)
     if len(nodes) != 1 or nodes[0][0] != "for":
         raise TranslateError("ElimPivot constructor: one loop expected")
     rr = Ren()
@@ -839,7 +1457,7 @@ def translate_lu(dm, diag):
                "def elimPivotInit (i : Nat) : Nat := i" % lean_loops([lp]))
     fb = normalize(function_body(dmn, r"DenseMatrix<MAT>::ElimPivot::swap\s*\(\s*std::size_t\s+i\s*,\s*simd_index_type\s+j\s*\)(?=\s*\{)",
                                  "ElimPivot::swap"))
-    nodes = significant(parse_seq(fb))
+    nodes = ntree(fb, "functor", DENSE_CTX, dmn)
     if len(nodes) != 1 or nodes[0][0] != "stmt":
         raise TranslateError("ElimPivot::swap: one statement expected")
     lhs, rhs = compound(nodes[0][1], "ElimPivot::swap")
@@ -863,7 +1481,7 @@ def translate_lu(dm, diag):
         rr.bind(g, cn)
     p = dmn.find("{", ms[0].end())
     fb = normalize(dmn[p + 1:match_brace(dmn, p)])
-    nodes = significant(parse_seq(fb))
+    nodes = ntree(fb, "functor", DENSE_CTX, dmn)
     if len(nodes) != 1 or nodes[0][0] != "stmt":
         raise TranslateError("Elim<V>::operator(): one statement expected")
     lhs, rhs = compound(rr(nodes[0][1]), "Elim<V>::operator()")
@@ -874,7 +1492,7 @@ def translate_lu(dm, diag):
     # Elim<V>::swap
     fb = normalize(function_body(dmn, r"DenseMatrix<MAT>::Elim<V>::swap\s*\(\s*std::size_t\s+i\s*,\s*simd_index_type\s+j\s*\)(?=\s*\{)",
                                  "Elim<V>::swap"))
-    nodes = significant(parse_seq(fb))
+    nodes = ntree(fb, "functor", DENSE_CTX, dmn)
     if len(nodes) != 1:
         raise TranslateError("Elim<V>::swap: one (lane-wise) swap expected, found %d statements" % len(nodes))
     sw = lane_swap(nodes[0], Ren(), "Elim<V>::swap")
@@ -893,7 +1511,7 @@ def translate_lu(dm, diag):
     if not msw:
         raise TranslateError("ElimDet::swap not found")
     fb = normalize(cls_body[msw.end():match_brace(cls_body, msw.end() - 1)])
-    nodes = significant(parse_seq(fb))
+    nodes = ntree(fb, "functor", DENSE_CTX, dmn)
     if len(nodes) != 1 or nodes[0][0] != "stmt":
         raise TranslateError("ElimDet::swap: one statement expected (control flow is outside the grammar)")
     lhs, rhs = compound(nodes[0][1], "ElimDet::swap")
@@ -948,7 +1566,7 @@ def translate_lu(dm, diag):
         return args, iscopy, nodes.index(calls[0])
 
     def lu_branch(fname, hdr):
-        nodes = significant(parse_seq(normalize(function_body(dmn, hdr, fname))))
+        nodes = ntree(canon_dispatch(function_body(dmn, hdr, fname)), fname, DENSE_CTX, dmn)
         # follow the else-chain of the rows()==k tests; determinant returns from the closed forms instead
         cur = nodes
         while True:
@@ -956,6 +1574,11 @@ def translate_lu(dm, diag):
             if not ifs:
                 break
             last = ifs[-1]
+            for nd in ifs:
+                # round five: a closed-form branch without `else` must leave the function (guard-clause spelling),
+                # otherwise the LU path would run after it
+                if not nd[3] and not (nd[2] and nd[2][-1][0] == "stmt" and re.match(r"return\b", nd[2][-1][1])):
+                    raise TranslateError("%s: the branch `%s` neither has an else nor returns" % (fname, nd[1]))
             if last[3]:
                 cur = last[3]
             else:
@@ -980,8 +1603,8 @@ def translate_lu(dm, diag):
     if len(rest) != 1:
         raise TranslateError("%s: exactly the back substitution loop expected after the decomposition" % W)
     rr = Ren(); rr.bind("rhs", "x")
-    loops = [expect_loop(rest[0], rr, "i", None, None, None, W)]
-    bb = significant(rest[0][2])
+    lp, bb = down_loop(rest[0], rr, W)
+    loops = [lp]
     if len(bb) != 2 or bb[0][0] != "for" or bb[1][0] != "stmt":
         raise TranslateError("%s: back substitution body: inner loop + division expected" % W)
     loops.append(expect_loop(bb[0], rr, "j", None, None, None, W))
@@ -1076,13 +1699,6 @@ def translate_lu(dm, diag):
                       "forward sweep L Y = I: `(*this)[i][k] = %s`" % rhs))
     out.append("/-- loops of the forward sweep -/\ndef forwardLoops : List (String × String × String × String) := " + lean_loops(loops))
 
-    def down_loop(node, ren, what):
-        """`for (size_type i=rows(); i>0; ) { --i; ... }` -> canonical header + remaining body"""
-        lp = expect_loop(node, ren, "i", None, None, None, what)
-        bb = significant(node[2])
-        if lp[3] != "body" or not bb or bb[0][0] != "stmt" or ren(bb[0][1]) not in ("--i", "i--", "i-=1"):
-            raise TranslateError("%s: `for (i = rows(); i > 0; ) { --i; ...` expected" % what)
-        return (lp[0], lp[1], lp[2], "down, --i first"), bb[1:]
     rr = Ren(); rr.bind("L", "A"); rr.bind("U", "A")
     lp, bb = down_loop(rest[3], rr, W + " backward sweep")
     loops = [lp]
@@ -1147,7 +1763,7 @@ def translate_lu(dm, diag):
     # ---------------- DiagonalMatrix ----------------
     dg = diag
     W = "DiagonalMatrix::solve"
-    nodes = significant(parse_seq(normalize(function_body(dg, r"void\s+solve\s*\(\s*V\s*&\s*x\s*,\s*const\s+V\s*&\s*b\s*\)\s*const", W))))
+    nodes = ntree(function_body(dg, r"void\s+solve\s*\(\s*V\s*&\s*x\s*,\s*const\s+V\s*&\s*b\s*\)\s*const", W), W, DIAG_CTX, dg)
     if len(nodes) != 1 or nodes[0][0] != "for":
         raise TranslateError("%s: one loop expected" % W)
     rr = Ren()
@@ -1161,7 +1777,7 @@ def translate_lu(dm, diag):
     D1 = (r"\bdiag_\[i\]", "d_i")
     out.append(kernel("diagSolveEntry", rhs, [D1, (r"\bb\[i\]", "b_i")], ["d_i", "b_i"], W, "`DiagonalMatrix::solve`: `x[i] = %s`" % rhs))
     W = "DiagonalMatrix::invert"
-    nodes = significant(parse_seq(normalize(function_body(dg, r"void\s+invert\s*\(\s*\)", W))))
+    nodes = ntree(function_body(dg, r"void\s+invert\s*\(\s*\)", W), W, DIAG_CTX, dg)
     if len(nodes) != 1 or nodes[0][0] != "for":
         raise TranslateError("%s: one loop expected" % W)
     rr = Ren()
@@ -1174,7 +1790,7 @@ def translate_lu(dm, diag):
         raise TranslateError("%s: assignment to diag_[i] expected" % W)
     out.append(kernel("diagInvertEntry", rhs, [D1], ["d_i"], W, "`DiagonalMatrix::invert`: `diag_[i] = %s`" % rhs))
     W = "DiagonalMatrix::determinant"
-    nodes = significant(parse_seq(normalize(function_body(dg, r"K\s+determinant\s*\(\s*\)\s*const", W))))
+    nodes = ntree(function_body(dg, r"K\s+determinant\s*\(\s*\)\s*const", W), W, DIAG_CTX, dg)
     if (len(nodes) != 3 or nodes[0][0] != "stmt" or nodes[1][0] != "for" or nodes[2][0] != "stmt"):
         raise TranslateError("%s: `K det = diag_[0]; for ...; return det;` expected" % W)
     m = re.fullmatch(r"(?:K|field_type|auto) (\w+)=diag_\[(\d+)\]", nodes[0][1])
@@ -1241,16 +1857,20 @@ def translate(repo):
         dm, r"DenseMatrix<MAT>::solve\s*\(\s*V1\s*&\s*x\s*,\s*const\s+V2\s*&\s*b\s*,\s*bool\s+doPivoting\s*\)\s*const",
         "solve")
     inv_body = function_body(dm, r"DenseMatrix<MAT>::invert\s*\(\s*bool\s+doPivoting\s*\)", "invert")
+    det_body, solve_body, inv_body = canon_dispatch(det_body), canon_dispatch(solve_body), canon_dispatch(inv_body)
 
     for n in (1, 2, 3):
         blk = Block(n, "determinant rows()==%d" % n, "this").run(size_block(det_body, n, "determinant"))
         out.append(emit("det%d" % n, n, blk, "det"))
     for n in (1, 2, 3):
         blk = Block(n, "solve rows()==%d" % n, "this", det_call="(det%d %s)" % (n, margs(n)), has_b=True)
+        blk.void = True
         blk.run(size_block(solve_body, n, "solve"))
         out.append(emit("solve%d" % n, n, blk, "solve"))
     for n in (1, 2, 3):
-        blk = Block(n, "invert rows()==%d" % n, "this").run(size_block(inv_body, n, "invert"))
+        blk = Block(n, "invert rows()==%d" % n, "this")
+        blk.void = True
+        blk.run(size_block(inv_body, n, "invert"))
         out.append(emit("invert%d" % n, n, blk, "invert"))
 
     # FMatrixHelp::invertMatrix / invertMatrix_retTransposed for FieldMatrix<K,n,n>, n = 1..3
